@@ -16,6 +16,7 @@
      hi.<flag>                           the public hash_inputs(flag): first / third field = checksum of the 32 bytes
      go                                  get_outpoints()
      fk                                  keep a second object: other = tx.clone()      sw   swap tx and the other object
+     cf / as / ms                        tx.clone_from(&other) / tx = other.clone() / std::mem::swap(&mut tx, &mut other) (nothing without an other object)
      new.<version>.<locktime> / def      continue with Transaction::new(..) / Transaction::default()
      an.<k>.<sat|->.<lock|->             annotate input k (get_input, set_satoshis / set_locking_script, set_input); no input k: nothing
      pb.<bytes> / ph.<bytes>             continue with Transaction::from_bytes(bytes) / from_hex(hex of bytes) (any accepted encoding,
@@ -49,7 +50,7 @@ Inductive xop :=
 | XSig (f idx : N) (sub : list bit) (v : N)
 | XSign (f idx : N) (sub : list bit) (v : N)
 | XIns (l : list txin) | XOuts (l : list txout) | XHashIn (f : N) | XGetOutpoints
-| XFork | XSwap | XNew (v lt : N) | XDefault | XReparse (kind : N) | XParse (b : bytes)
+| XFork | XSwap | XCloneFrom | XNew (v lt : N) | XDefault | XReparse (kind : N) | XParse (b : bytes)
 | XAnn (k : N) (sat : option N) (lock : option (list bit)).
 
 Definition parse_in (txid vo scr sq : string) : option txin :=
@@ -93,6 +94,9 @@ Definition parse_op (s : string) : option xop :=
   | ["go"] => Some XGetOutpoints
   | ["fk"] => Some XFork
   | ["sw"] => Some XSwap
+  | ["ms"] => Some XSwap
+  | ["cf"] => Some XCloneFrom
+  | ["as"] => Some XCloneFrom
   | ["new"; v; lt] => match N_of_dec v, N_of_dec lt with Some a, Some b => Some (XNew a b) | _, _ => None end
   | ["def"] => Some XDefault
   | ["fb"] => Some (XReparse 0)
@@ -168,7 +172,7 @@ Definition to_op (s : state) (x : xop) : op :=
         | None => CloneOp
         end
       else CloneOp
-  | XFork | XSwap | XNew _ _ | XDefault | XReparse _ | XParse _ => CloneOp     (* handled by `special` below *)
+  | XFork | XSwap | XCloneFrom | XNew _ _ | XDefault | XReparse _ | XParse _ => CloneOp     (* handled by `special` below *)
   end.
 
 (* steps that replace the object instead of calling a method on it: every one of them yields a value whose cache is
@@ -177,6 +181,7 @@ Definition special (x : xop) (s : state) (other : option state) : option (outcom
   match x with
   | XFork => Some (Ok (s, Some s))
   | XSwap => Some (Ok (match other with Some o => (o, Some s) | None => (s, None) end))
+  | XCloneFrom => Some (Ok (match other with Some o => (o, Some o) | None => (s, None) end))   (* contents and cache of the source *)
   | XNew v lt => Some (Ok (fresh (tx_new v lt), other))
   | XDefault => Some (Ok (fresh (tx_new 2 0), other))
   | XParse b =>
